@@ -20,11 +20,11 @@ checks = {
    note="Bounded by depth (chain length <= depth-1). Where the statement is silent (state after refusing a never-used token) the model adopts the implementation's answer and counts a dont_care."),
  "C08": dict(level="model_checking", engine="HIST", ref="DESIGN.md §5 C08",
    technique="explicit-state BFS over API histories with revocation by owner / foreign / unauthenticated callers and all token_type_hints on tokens in every liveness state; store-dump equality for 'changes nothing'",
-   text="Every history up to the stated depth over <=2 grants where each token ever seen can be revoked by owner, foreign client, a caller failing authentication, or the owner presenting a forged string that carries the token's signature part, with 6 hint values (absent, access_token, refresh_token, garbage, id_token, authorize_code); the verdict is the endpoint's HTTP answer; oracle: owner => token and sibling dead in all later sweeps; foreign => unauthorized_client and byte-identical store dump; unauthenticated => unchanged; already invalid => success and unchanged. Plus: a refresh request validated before and completed after the owner's accepted revocation (of the presented refresh token / of its sibling access token) must not yield live tokens.",
-   note="Bounded by depth; 'other tokens of the same grant' after an owner revocation are not pinned by the statement and are adopted from introspection. Known finding: a forged string with a genuine signature part revokes the grant (see known_findings.json)."),
+   text="Every history up to the stated depth over <=2 grants where each token ever seen can be revoked by owner, foreign client, a caller failing authentication, or the owner presenting a forged string that carries the token's signature part, with 6 hint values (absent, access_token, refresh_token, garbage, id_token, authorize_code); the verdict is the endpoint's HTTP answer; oracle: owner => token and sibling dead in all later sweeps; foreign => unauthorized_client and byte-identical store dump; unauthenticated => unchanged; already invalid (also: expired) => success and unchanged. Plus: a refresh request validated before and completed after the owner's accepted revocation (of the presented refresh token / of its sibling access token) must not yield live tokens.",
+   note="Bounded by depth; 'other tokens of the same grant' after an owner revocation are not pinned by the statement and are adopted from introspection. Known findings: a forged string with a genuine signature part, and an already expired token, revoke the grant (see known_findings.json)."),
  "C09": dict(level="model_checking", engine="HIST", ref="DESIGN.md §5 C09",
    technique="explicit-state BFS over API histories of all grant types; in every reached state the introspection endpoint is queried for every token under a grid of hints, scopes and caller credentials and compared with the model",
-   text="In every state reached by histories up to the stated depth (code, hybrid, password, device, client credentials, OIDC; HMAC and JWT; refresh-token validation on/off; 3 scope strategies) every token ever seen is introspected and active/payload compared with the reference model; refresh tokens are also presented by a foreign client (replay detection must kill the family whoever replays); callers include a public client's id with some secret and the token itself as bearer in other spellings (known finding).",
+   text="In every state reached by histories up to the stated depth (code, hybrid, password, device, client credentials, OIDC; HMAC and JWT; refresh-token validation on/off; 3 scope strategies) every token ever seen is introspected and active/payload compared with the reference model; refresh tokens are also presented by a foreign client (replay detection must kill the family whoever replays); callers include a public client's id with some secret and the token itself as bearer in other spellings (known finding); plus the stateless JWT validator alone: audience, scope and exp reported for an active token equal the token's claims.",
    note="Bounded by depth and alphabets in evidence.bounds; token kind is read from the IntrospectionResponder because the HTTP writer does not render it."),
 }
 
@@ -35,7 +35,7 @@ checks.update({
    note="Alphabets are those listed in evidence.bounds; code ages are 5 s away from the expiry instant (expiry rounding is C07)."),
  "C05": dict(level="exploration", engine="ENUM", ref="DESIGN.md §5 C05",
    technique="exhaustive enumeration of the full product of grant / request / registration-change / configuration dimensions on the real provider against independent reference strategies",
-   text="Every combination of grant origin x granted scopes x audience x refresh-request parameters x presenter x post-issuance registration change (in place or by replacing the record) x refresh-scope configuration x scope strategy x client refresh grant x prior chain length x partial consent (registration edits include leaving a look-alike string prefix of the removed scope registered) is executed on a fresh provider; refresh honoured only for the owner still covering every granted scope/audience and holding the grant; new tokens' sub/scope/aud equal the original grant; refresh tokens only issued under the stated conditions.",
+   text="Every combination of grant origin x granted scopes x audience x refresh-request parameters x presenter x post-issuance registration change (in place or by replacing the record) x refresh-scope configuration x scope strategy x client refresh grant x prior chain length x {partial consent, replaced registration, refresh grant lost between authorization and redemption} (registration edits include leaving a look-alike string prefix of the removed scope registered) is executed on a fresh provider; refresh honoured only for the owner still covering every granted scope/audience and holding the grant; new tokens' sub/scope/aud equal the original grant; refresh tokens only issued under the stated conditions.",
    note="Scope coverage judged by refstrat.go (independent implementation of the documented strategies)."),
 })
 
@@ -50,7 +50,7 @@ checks.update({
    note="Documentation-undefined inputs (empty segments absorbed by a trailing wildcard, host case) are don't-care."),
  "C16": dict(level="model_checking", engine="SEQ", ref="DESIGN.md §5 C16",
    technique="exhaustive enumeration (iterative deepening) of all operation sequences up to a depth over <=2 device flows on the real provider with a lock-step model, for the reference store and a contract-following store",
-   text="Every sequence of device_auth / accept / accept-with-replaced-session / reject / poll (right, wrong, wrong client with body client_id; genuine, forged random part, forged with the user-code signature) / advance up to depth 6 (one flow) and 5 (two flows) [8/6 thorough], on both stores; tokens only for accepted, unexpired, unconsumed flows polled by the right client with the genuine code; error classes where exactly one clause applies; replay on the contract store must leave the first pair inactive; codes reach storage only as signatures; overlapping polls of one device code (API-phase interleavings) yield tokens at most once.",
+   text="Every sequence of device_auth / accept / accept-with-replaced-session / reject / poll (right, wrong, wrong client with body client_id; genuine, forged random part, forged with the user-code signature) / advance up to depth 6 (one flow) and 5 (two flows) [8/6 thorough], on both stores; tokens only for accepted, unexpired, unconsumed flows polled by the right client with the genuine code; error classes where exactly one clause applies; replay on the contract store must leave the first pair inactive; codes reach storage only as signatures; overlapping polls of one device code (API-phase interleavings) yield tokens at most once; with a user-code space of 1..3 values, pending flows never share a user code.",
    note="randx user-code randomness cannot be intercepted; checked for distinctness only."),
 })
 
@@ -64,7 +64,7 @@ checks.update({
 checks.update({
  "C07": dict(level="exploration", engine="ENUM", ref="DESIGN.md §5 C07",
    technique="exhaustive enumeration of credential kind x lifetime source x issue offset x history position x age x exp encoding x session implementation under a virtual clock on the real provider; exhaustive override table",
-   text="22 credential kinds (code; access tokens from 8 grants incl. JWT; refresh tokens from 3 grants and unlimited; device/user code; request_uri; JWT-bearer and client assertions with int/float/fractional exp; access token used as bearer; tokens after an abandoned refresh/redemption) x 10 lifetime sources (server default, three configured triples, per-client override, session-provided access-token expiry, unlimited refresh tokens alone / under a finite override / under a finite override of the code grant only, finite default with an unlimited per-client refresh-grant override) x 3 (11 thorough) sub-second issue offsets x 3 history positions x 10 (22) ages on both sides of expiry x 2 session implementations: >=2 s after expiry must be refused wherever presented, >=2 s before an advertised expiry must be honoured, advertised lifetime within 1 s of the effective one; GetEffectiveLifespan checked for all 12 fields x 7 grants x 4 token types.",
+   text="27 credential kinds (ID tokens of the code / implicit / hybrid / refresh flows, judged by their exp; code; access tokens from 8 grants incl. JWT; refresh tokens from 3 grants and unlimited; device/user code; request_uri; JWT-bearer and client assertions with int/float/fractional exp; access token used as bearer; tokens after an abandoned refresh/redemption) x 10 lifetime sources (server default, three configured triples, per-client override, session-provided access-token expiry, unlimited refresh tokens alone / under a finite override / under a finite override of the code grant only, finite default with an unlimited per-client refresh-grant override) x 3 (11 thorough) sub-second issue offsets x 3 history positions x 10 (22) ages on both sides of expiry x 2 session implementations: >=2 s after expiry must be refused wherever presented, >=2 s before an advertised expiry must be honoured, advertised lifetime within 1 s of the effective one; GetEffectiveLifespan checked for all 12 fields x 7 grants x 4 token types.",
    note="+-1 s around expiry is don't-care; the clock is the overlay virtual clock (all time.Now/Since/Until in ory/fosite are rewritten at build time)."),
 })
 
@@ -106,11 +106,11 @@ checks.update({
 checks.update({
  "C18": dict(level="fault_enumeration", engine="FAULT", ref="DESIGN.md §5 C18",
    technique="exhaustive storage-fault and crash-point enumeration on the real provider: every storage call of every flow x error kind, every crash point, fault pairs, on a plain and a transactional (real rollback) proxy store, followed by retry and attacker replays",
-   text="For 20 flows the storage-call trace of the target request is recorded; every call index x {generic, not-found, inactive, serialization conflict} (BeginTX/Commit/Rollback included), a crash before every call, and pairs (first fault anywhere, second of every kind at every later call, or a crash at every later point; triples of generic failures in thorough) are injected. A failed request carries no token/code; serialization conflicts on refresh are retryable; begin is matched by exactly one commit or rollback and never followed by a commit after a failed write; after a rolled-back failure the code/token records equal the records before the request and the holder's retry succeeds; attacker variants (foreign client, missing/wrong verifier, replay) stay refused; a revocation that reports success is effective.",
+   text="For 20 flows the storage-call trace of the target request is recorded; every call index x {generic, not-found, inactive, serialization conflict} (BeginTX/Commit/Rollback included), a crash before every call, and pairs (first fault anywhere, second of every kind at every later call, or a crash at every later point; triples of generic failures in thorough) are injected. A failed request carries no token/code and never panics; serialization conflicts on refresh are retryable; begin is matched by exactly one commit or rollback and never followed by a commit after a failed write; after a rolled-back failure the code/token records equal the records before the request and the holder's retry succeeds; attacker variants (foreign client, missing/wrong verifier, replay) stay refused; a revocation that reports success is effective.",
    note="Sentinel answers (not-found / inactive) at Get*/Revoke* calls are another store state, not a failure (don't-care). Record equality ignores session expiry fields. The transactional store is context-sensitive: a write issued during an open transaction with a context that does not carry it survives the rollback."),
  "C20": dict(level="exploration", engine="ENUM+FAULT", ref="DESIGN.md §5 C20",
    technique="exhaustive enumeration of error x hostile text x format x debug x writer with re-parsing of the bytes written; scan of every storage call of every flow for usable secrets; storage-error text injection at every storage call",
-   text="38 errors (all exported RFC errors + a plain Go error) x hint/debug text from 16 hostile fragments (pairs in quick, triples in thorough) x legacy/new format x debug exposure x 9 writers: JSON re-parsed, redirects re-parsed (no injected parameter, state round-trips, no CR/LF in headers), form_post pages tokenised (only the expected inputs, no injected element), status matches code, debug detail only when enabled, no-store/no-cache everywhere. Storage: 17 flows (incl. every kind of credential presented in every credential slot of the token, introspection and revocation endpoints) x HMAC/JWT — no key or stored form value equals or contains a client secret, password, PKCE verifier, assertion or complete live code/token. A recognisable storage error text injected at every storage call of 20 flows never reaches the client and the answer carries an RFC error code; the same for the transport error of a failed request_uri fetch.",
+   text="38 errors (all exported RFC errors + a plain Go error) x hint/debug text from 16 hostile fragments (pairs in quick, triples in thorough) x legacy/new format x debug exposure x 9 writers: JSON re-parsed, redirects re-parsed (no injected parameter, state round-trips, no CR/LF in headers), form_post pages tokenised (only the expected inputs, no injected element), status matches code, debug detail only when enabled, no-store/no-cache everywhere. Storage: 17 flows (incl. every kind of credential presented in every credential slot of the token, introspection and revocation endpoints) x HMAC/JWT — no key or stored form value equals or contains a client secret, password, PKCE verifier, assertion or complete live code/token. A recognisable storage error text injected at every storage call of 20 flows never reaches the client and the answer carries an RFC error code; the same for the transport error of a failed request_uri fetch; manipulated codes / refresh tokens / device codes are refused with an OAuth 2.0 error and a 4xx status.",
    note="Known findings: OpenID Connect sessions keyed by the complete authorization code (storage contract). The user password necessarily reaches Authenticate."),
 })
 
